@@ -29,6 +29,15 @@ def auto_schedules(quick):
     if not quick:
         for i, j, k in itertools.combinations(range(1, 11), 3):
             sch.append([{"op": "Auto", "drop": [i, j, k], "dup": []}])
+    # the single TX buffer occupied by a slow network send while the back-off of the sender fires, with the
+    # acknowledgement held back in the network until then (Mrp.tla: Timeout with busy / SendComplete / RetransGo)
+    for node in (0, 1):
+        for call in ((1, 2) if quick else (1, 2, 3)):
+            for slow_ms in ((700, 1500) if quick else (500, 700, 1000, 1500, 2500)):
+                for held in ((2, 3, 4) if quick else (1, 2, 3, 4, 5, 6)):
+                    for delay_ms in ((500, 900) if quick else (300, 500, 700, 900, 1200, 2000)):
+                        sch.append([{"op": "Auto", "drop": [], "dup": [], "slow": [[node, call, slow_ms]], "delay": [[held, delay_ms]]}])
+                        sch.append([{"op": "Auto", "drop": [held - 1] if held > 1 else [], "dup": [], "slow": [[node, call, slow_ms]], "delay": [[held, delay_ms]]}])
     return sch
 
 def run(tier, seed, pid="C09", extra=()):
@@ -38,6 +47,11 @@ def run(tier, seed, pid="C09", extra=()):
     mc = vlib.tlc_mc(pid, "Mrp.tla", "MCMrp.cfg" if quick else "MCMrpDeep.cfg", workers=8 if quick else 14, timeout=3000)
     if not mc["ok"]:
         raise vlib.ToolError("Mrp violates its invariants (%s):\n%s" % (mc["violated"], mc["out_tail"]))
+    # sensitivity of the model: without the re-check after queueing for the TX buffer TLC must find a violation
+    sens = vlib.tlc_mc(pid, "Mrp.tla", "MCMrp_norecheck.cfg", workers=4, timeout=600)
+    if sens["ok"]:
+        raise vlib.ToolError("the model without the TX-buffer re-check satisfies every invariant: the TX-buffer part of Mrp.tla is vacuous")
+    ck.cov["model_sensitivity"] = {"cfg": "MCMrp_norecheck.cfg", "violated": sens["violated"]}
     num = 300 if quick else 6000
     beh, gen_states = vlib.tlc_sim(pid, "Mrp.tla", "GenMrp.cfg", num=num, depth=120, seed=seed, timeout=2400)
     uniq, seen = [], set()
